@@ -42,12 +42,15 @@ CLAIMED["C01"] = dict(
     text="Theorems (coq/Properties/C01.v), for every adapter of the eight classes (flags regenerated from adapters.py/align.py), every threshold table and every read: "
     "a reported match has coordinates inside adapter and read, obeys the documented placement rule of its type, covers at least min_overlap adapter characters, "
     "has errors <= thr(non-N adapter characters aligned) and the documented removal side (C01_sound_partial, by an invariant on every origin stored in the DP column of the "
-    "line-by-line model of Aligner.locate); for the comparers (anchored, no indels) the error count is exactly the Hamming distance of the intervals (C01_comparer_exact). "
-    "PARTIAL: that the DP cost equals the edit distance of the reported intervals is not a theorem; it is covered by the correspondence (model = Aligner.locate / match_to on "
-    "all 16 flag sets and 8 classes) plus the textbook-distance oracle run on the implementation.",
-    technique="Coq proof (invariant over the column fold of a line-by-line model of Aligner.locate) + translators (tables, flags, scores) + extracted-model differential correspondence; oracle search",
+    "line-by-line model of Aligner.locate); the reported number of errors is ACHIEVED by an alignment of the two reported intervals under the configured wildcard rules and indel cost "
+    "(C01_locate_errors_achieved for all 16 flag sets, C01_errors_achieved for all classes incl. the one aligning reversed strings; a second invariant on every DP cell within the error "
+    "budget, cells left stale by the Ukkonen cut-off shown irrelevant; C01_threshold_tables discharges the hypothesis on thresholds for every non-negative non-decreasing table): hence "
+    "true edit distance <= reported errors <= tolerance, the occurrence is genuine; for the comparers (anchored, no indels) the error count is exactly the Hamming distance (C01_comparer_exact). "
+    "PARTIAL in one respect: that no cheaper alignment of the reported intervals exists (optimality of the banded DP, i.e. errors <= true distance) is not a theorem; it is covered by the "
+    "correspondence (model = Aligner.locate / match_to on all 16 flag sets and 8 classes) plus the textbook-distance oracle run on the implementation.",
+    technique="Coq proof (two invariants over the column fold of a line-by-line model of Aligner.locate; inductive edit-script relation closed under reversal) + translators (tables, flags, scores) + extracted-model differential correspondence; oracle search",
     design="6/C01",
-    note=TB + " The float comparison cost <= L*rate is modelled as cost <= thr[L] with thr[L] = int(L*rate) computed in CPython by the code's own expression.",
+    note=TB + " The float comparison cost <= L*rate is modelled as cost <= thr[L] with thr[L] = int(L*rate) computed in CPython by the code's own expression; the harness asserts every table it generates is non-negative and non-decreasing.",
 )
 
 CLAIMED["C02"] = dict(
